@@ -71,7 +71,11 @@ def native_split_values(rng_v, maxint):
         conv.process()
         off = 0
         for sh, inf in conv.shank_info.items():
-            got = np.fromfile(inf["ap_file"], dtype=np.int16).reshape(-1, len(inf["chns"]))
+            flat = np.fromfile(inf["ap_file"], dtype=np.int16)
+            if flat.size != D.shape[0] * len(inf["chns"]):
+                off += D.size
+                continue
+            got = flat.reshape(-1, len(inf["chns"]))
             off += int(np.sum(got != D[:, inf["chns"]])) if got.shape[0] == D.shape[0] else D.size
         conv.sr.close()
         return off
@@ -360,7 +364,11 @@ def native_end_to_end(rng, rng_v, maxint, ns, window, nshank_assign, stale=False
             bad.append(("process status", st0))
         cols = []
         for sh, inf in conv.shank_info.items():
-            got = np.fromfile(inf["ap_file"], dtype=np.int16).reshape(-1, len(inf["chns"]))
+            flat = np.fromfile(inf["ap_file"], dtype=np.int16)
+            if flat.size % len(inf["chns"]):
+                bad.append(("split", sh, "file holds", int(flat.size), "int16 words: not a whole number of frames of", len(inf["chns"]), "channels"))
+                continue
+            got = flat.reshape(-1, len(inf["chns"]))
             if got.shape[0] != ns or not np.array_equal(got, D[:, inf["chns"]]):
                 bad.append(("split", sh, got.shape, int(np.sum(got[:min(ns, got.shape[0])] != D[:got.shape[0], inf["chns"]]))))
             srs = spikeglx.Reader(inf["ap_file"], sort=False)
